@@ -45,6 +45,8 @@ def xorLeaves : List (Nat × Nat) := [(9, 16), (11, 32), (12, 64), (8, 128), (10
 structure LeafOk (O : Oracle) (E : Bytes → Bytes) (rk : Val) : Prop where
   /-- a block is 16 bytes -/
   E_len : ∀ b, (E b).length = 16
+  /-- the round-key slice is not empty (`&roundKeys[0]` is an index expression: Go panics on an empty slice, the IR is stuck) -/
+  rk_ne : ∃ w ws, rk = .arr (w :: ws)
   /-- the frame record that precedes every routine call returns nothing -/
   frame : ∀ args, O 0 args = []
   /-- `cryptoBlockAsmXn(&rk[0], &dst[0], &src[0])`: n blocks of `src` through `E`, stored over the first 16n bytes of `dst` -/
